@@ -556,7 +556,7 @@ func invalidate(r *rand.Rand, op model.Op, a *model.Args) {
 		case 2:
 			c.PIN = pick(r, uint32(999999), 1000000, 1000001, 0xffffffff, 16777215, 16777216)
 		case 3, 4, 5: // Wiegand-26 boundaries
-			a.Formats = pick(r, []uint8{1}, []uint8{1}, []uint8{1, 1}, []uint8{1, 0}, []uint8{0, 1}, []uint8{2}, []uint8{2, 1}, []uint8{7}, []uint8{})
+			a.Formats = pick(r, []int{1}, []int{1}, []int{1, 1}, []int{1, 0}, []int{0, 1}, []int{2}, []int{2, 1}, []int{7}, []int{})
 			fac := pick(r, uint32(0), 1, 254, 255, 256, 257, 999, 1000, 10000, 42949)
 			num := pick(r, uint32(0), 1, 65534, 65535, 65536, 65537, 99999, 12345)
 			if r.Intn(3) == 0 {
